@@ -327,7 +327,7 @@ def rule_v8(ctx, pl: Pipeline, rule_id: str = "C03-V8") -> None:
     """A solved row has an empty issue.  After the MCS stage has taken its verdicts, an issue text may only be written to
     a row that is unsolved at that point (`not row[solved]`) or that is demoted in the same branch (`solved := False`).
     The confidence filter relies on it (it asserts an empty issue on the rows it demotes)."""
-    ctx.rule(rule_id, "after the MCS stage an issue is written only to rows that are unsolved or demoted in the same branch", 2)
+    ctx.rule(rule_id, "after the MCS stage an issue is written only to rows that are unsolved or demoted in the same branch", 1)
     solved, issue = pl.solved_col.text, pl.issue_col.text
     mcs_idx = max([x.index for x in pl.stages if x.attr == "mcs_method"] or [-1])
     ctx.require(mcs_idx >= 0, "MCS method stage not found in __run_pipeline")
